@@ -53,11 +53,12 @@ BIT_STRING_decode_oer(const asn_codec_ctx_t *opt_codec_ctx,
             ASN__DECODE_STARVED;
         }
 
-        st->bits_unused = ((const uint8_t *)ptr)[0];
-        if(st->bits_unused & ~7) {
+        if(((const uint8_t *)ptr)[0] & ~7) {
+            /* Do not leave an impossible value behind in the structure */
             ASN_DEBUG("%s: unused bits outside of 0..7 range", td->name);
             ASN__DECODE_FAILED;
         }
+        st->bits_unused = ((const uint8_t *)ptr)[0];
         ptr = (const char *)ptr + 1;
         size--;
         expected_length--;
